@@ -17,57 +17,76 @@ from attr._make import _DEFAULT_ON_SETATTR, NOTHING, _AndValidator, _CountingAtt
 
 import common
 
-_ADDR = re.compile(r" at 0x[0-9a-fA-F]+")
+_ADDR = re.compile(r" at 0x[0-9a-fA-F]+|(?<=counter=)\d+")     # addresses; the global creation counter of a counting attr
 LOG: list = []
 MODNAME = "c16mod"
 HOOK_KEYS = ("__attrs_pre_init__", "__attrs_post_init__", "__init__")
 
 
-# ------------------------------------------------------------------ user callables (shared by all worlds)
-def _tok(fn, tok):
+# ------------------------------------------------------------------ user callables
+# Every callable handed to attrs is a fresh object of its world and carries `.owner`: the class whose body
+# created it, a base class, or the world's shared containers/decorator arguments.  Whenever one runs it logs
+# (what, owner); whenever one is found inside a class (fields(), globals/closures of generated methods) its owner
+# is checked: a class may only ever hold and run callables of itself, its bases and the shared arguments.
+def _own(fn, tok, owner):
     fn.tok = tok
+    fn.owner = owner
     return fn
 
 
-_CONV: dict = {}
-_VAL: dict = {}
+def _num(v):
+    while isinstance(v, (list, tuple)) and v:
+        v = v[-1]
+    return v if isinstance(v, int) and not isinstance(v, bool) else 0
 
 
-def conv(tok):
-    f = _CONV.get(tok)
-    if f is None:
-        def c(v, _t=tok):
-            LOG.append("c:" + _t)
-            return ["c:" + _t, v]
-        f = _CONV[tok] = _tok(c, "c:" + tok)
-    return f
+def mk_conv(owner, tok, variant=0):
+    def c(v):
+        LOG.append(("c:" + tok, owner))
+        return ["c:" + tok + (f"#{variant}" if variant else ""), v]
+    return _own(c, "c:" + tok, owner)
 
 
-def val(tok):
-    f = _VAL.get(tok)
-    if f is None:
-        def v(inst, a, value, _t=tok):
-            LOG.append("v:" + _t)
-        f = _VAL[tok] = _tok(v, "v:" + tok)
-    return f
+def mk_val(owner, tok):
+    def v(inst, a, value):
+        LOG.append(("v:" + tok, owner))
+    return _own(v, "v:" + tok, owner)
 
 
-def custom_hook(inst, a, value):
-    LOG.append("h:custom")
-    return ["h", value]
+def mk_key(owner, tok, variant=0):
+    """eq/order key: values 11 and 13 are equal under variant 0, different under variants 1 and 2"""
+    def k(v):
+        LOG.append(("k:" + tok, owner))
+        return _num(v) % (2 + variant)
+    return _own(k, "k:" + tok, owner)
 
 
-custom_hook.tok = "h:custom"
+def mk_repr(owner, tok, variant=0):
+    def r(v):
+        LOG.append(("r:" + tok, owner))
+        return f"R{variant}<{v!r}>"
+    return _own(r, "r:" + tok, owner)
 
 
-def list_hook(i):
-    def h(inst, a, value, _i=i):
-        LOG.append(f"h:H{_i}")
+def mk_factory(owner, tok, variant=0):
+    def f():
+        LOG.append(("f:" + tok, owner))
+        return 100 + variant
+    return _own(f, "f:" + tok, owner)
+
+
+def mk_hook(owner, tok, variant=0):
+    def h(inst, a, value):
+        LOG.append(("h:" + tok, owner))
+        return ["h" + (f"#{variant}" if variant else ""), value]
+    return _own(h, "h:" + tok, owner)
+
+
+def mk_list_hook(owner, i):
+    def h(inst, a, value):
+        LOG.append((f"h:H{i}", owner))
         return value
-    return _tok(h, f"h:H{i}")
-
-
-_LIST_HOOKS = [list_hook(i) for i in range(64)]
+    return _own(h, f"h:H{i}", owner)
 
 
 def own_hash(self):
@@ -83,7 +102,7 @@ def own_lt(self, other):
 
 
 def own_init(self, *a, **k):
-    LOG.append("own_init")
+    LOG.append(("own_init", None))
 
 
 def own_repr(self):
@@ -91,7 +110,7 @@ def own_repr(self):
 
 
 def own_setattr(self, n, v):
-    LOG.append("own_setattr")
+    LOG.append(("own_setattr", None))
     object.__setattr__(self, n, v)
 
 
@@ -100,17 +119,17 @@ def identity_transformer(cls, fields):
 
 
 def pre_init(self):
-    LOG.append("pre")
+    LOG.append(("pre", None))
 
 
 def post_init(self):
-    LOG.append("post")
+    LOG.append(("post", None))
 
 
 OWN = {id(f): f for f in (own_hash, own_eq, own_lt, own_init, own_repr, own_setattr, pre_init, post_init)}
 
 
-def hook_obj(kind):
+def hook_obj(kind, custom=None):
     if kind == "n":
         return None
     if kind == "noOp":
@@ -122,7 +141,7 @@ def hook_obj(kind):
     if kind == "dflt":
         return _DEFAULT_ON_SETATTR
     if kind == "custom":
-        return custom_hook
+        return custom
     if kind == "list":
         return [setters.convert, setters.validate]
     raise ValueError(kind)
@@ -301,7 +320,7 @@ def result_of(cls):
     }}}
 
 
-RAW1, RAW2 = 11, 22
+RAW1, RAW2, RAW3 = 11, 22, 13     # 11 and 13: equal under key variant 0 (mod 2), different under variants 1, 2
 
 
 def _blank(cls, raw):
@@ -316,6 +335,62 @@ def _blank(cls, raw):
     except Exception:  # noqa: BLE001
         pass
     return inst
+
+
+def owned_objects(cls):
+    """every owner-tagged callable a class holds: in fields(), in its own dict, in the globals, defaults and
+    closures of the methods attrs generated for it"""
+    import types
+    seen, out = set(), []
+
+    def walk(o, d):
+        if d > 10 or id(o) in seen or o is None or isinstance(o, (str, int, float, bool, bytes, type, types.ModuleType)):
+            return
+        seen.add(id(o))
+        try:
+            ow = o.__dict__.get("owner") if inspect.isfunction(o) else None
+        except Exception:  # noqa: BLE001
+            ow = None
+        if isinstance(ow, str):
+            out.append(o)
+        if inspect.isfunction(o):
+            if o.__code__.co_filename.startswith("<attrs generated"):
+                for k, v in list(o.__globals__.items()):
+                    if k != "__builtins__":
+                        walk(v, d + 1)
+            for cell in o.__closure__ or ():
+                try:
+                    walk(cell.cell_contents, d + 1)
+                except ValueError:
+                    pass
+            for v in o.__defaults__ or ():
+                walk(v, d + 1)
+            for v in (o.__kwdefaults__ or {}).values():
+                walk(v, d + 1)
+        elif isinstance(o, (list, tuple, set, frozenset)):
+            for v in o:
+                walk(v, d + 1)
+        elif isinstance(o, (dict, types.MappingProxyType)):
+            for v in list(o.values()):
+                walk(v, d + 1)
+        elif isinstance(o, attr.Attribute):
+            for n in type(o).__slots__:
+                walk(getattr(o, n, None), d + 1)
+        elif isinstance(o, _AndValidator):
+            walk(o._validators, d + 1)
+        elif isinstance(o, attr.Converter):
+            walk(o.converter, d + 1)
+        elif isinstance(o, attr.Factory):
+            walk(o.factory, d + 1)
+        elif isinstance(o, (classmethod, staticmethod)):
+            walk(o.__func__, d + 1)
+        elif isinstance(o, property):
+            walk(o.fget, d + 1)
+
+    for k, v in list(cls.__dict__.items()):
+        if k not in ("__dict__", "__weakref__"):
+            walk(v, 0)
+    return out
 
 
 def _safe(thunk):
@@ -333,9 +408,25 @@ def _field_row(a):
             canon(a.eq_key), canon(a.order_key)]
 
 
-def deep_of(cls):
-    """the full behaviour fingerprint of a class: structure of `fields()`, class dict keys, probes.
+def deep_of(cls, allowed=None):
+    """the full behaviour fingerprint of a class: structure of `fields()`, class dict keys, probes, and
+    `foreign`: every owner-tagged callable held or run by the class that belongs neither to the class itself, nor
+    to one of its bases, nor to the shared arguments (`allowed`: owner -> label).
     Never raises: a part that cannot be computed is recorded as the exception kind."""
+    allowed = allowed or {}
+    foreign = []
+
+    def log():
+        """the callback log since the last call, owners replaced by their label relative to this class"""
+        res = []
+        for what, owner in LOG:
+            lab = "" if owner is None else allowed.get(owner, "FOREIGN")
+            if lab == "FOREIGN":
+                foreign.append("ran " + what)
+            res.append(what + ("@" + lab if lab else ""))
+        del LOG[:]
+        return res
+
     out = {}
     d = cls.__dict__
     out["name"] = _safe(lambda: [cls.__name__, cls.__qualname__, cls.__module__, [b.__name__ for b in cls.__mro__]])
@@ -347,9 +438,14 @@ def deep_of(cls):
                                                       "__le__", "__gt__", "__ge__", "__init__", "__repr__", "__str__",
                                                       "__getstate__", "__setstate__", "__attrs_init__")}
     out["result"] = _safe(lambda: result_of(cls))
+    held = _safe(lambda: sorted({o.tok + "@" + allowed.get(o.owner, "FOREIGN") for o in owned_objects(cls)}))
+    out["held"] = held
+    if isinstance(held, list):
+        foreign += ["holds " + h for h in held if h.endswith("@FOREIGN")]
     tup = _safe(lambda: tuple(cls.__attrs_attrs__))
     if not isinstance(tup, tuple):
         out["fields"] = tup
+        out["foreign"] = foreign
         return out
     real = cls.__attrs_attrs__
     out["tupcls"] = [type(real).__name__, len(real),
@@ -359,36 +455,41 @@ def deep_of(cls):
     for m in ("__init__", "__attrs_init__"):
         f = d.get(m)
         if f is not None and slot_of(cls, m) == "gen":
-            out["sig" + m] = attempt(lambda f=f: str(inspect.signature(f)))
+            out["sig" + m] = attempt(lambda f=f: _ADDR.sub(" at 0x?", str(inspect.signature(f))))
             out["ann" + m] = attempt(lambda f=f: sorted(getattr(f, "__annotations__", {})))
     # behaviour probes
     del LOG[:]
     x = attempt(lambda: _blank(cls, RAW1) and None)
     out["blank"] = x
     if x[0] == "ok":
-        i1, i2 = _blank(cls, RAW1), _blank(cls, RAW1)
-        out["hash"] = [attempt(lambda: hash(i1) == hash(i2))[0], attempt(lambda: hash(i1) == hash(i1))]
-        out["repr"] = attempt(lambda: _ADDR.sub(" at 0x?", repr(i1)))
-        out["eq"] = [attempt(lambda: i1 == i2), attempt(lambda: i1 != i2), attempt(lambda: i1 == i1)]
-        out["lt"] = attempt(lambda: i1 < i2)
+        i1, i2, i3 = _blank(cls, RAW1), _blank(cls, RAW1), _blank(cls, RAW3)
+        out["hash"] = [attempt(lambda: hash(i1) == hash(i2))[0], attempt(lambda: hash(i1) == hash(i1)),
+                       attempt(lambda: hash(i1) == hash(i3)), log()]
+        out["repr"] = [attempt(lambda: _ADDR.sub(" at 0x?", repr(i1))), log()]
+        out["eq"] = [attempt(lambda: i1 == i2), attempt(lambda: i1 != i2), attempt(lambda: i1 == i1),
+                     attempt(lambda: i1 == i3), attempt(lambda: i1 != i3), log()]
+        out["lt"] = [attempt(lambda: i1 < i2), attempt(lambda: i1 < i3), attempt(lambda: i3 <= i1),
+                     attempt(lambda: i1 > i3), attempt(lambda: i1 >= i3), log()]
+        if slot_of(cls, "__getstate__") == "gen":
+            out["getstate"] = [attempt(lambda: i1.__getstate__()), log()]
         assigns = []
         for a in list(tup) + [None]:
             name = a.name if a is not None else "zz_other"
-            del LOG[:]
             r = attempt(lambda: setattr(i1, name, RAW2))
             got = attempt(lambda: getattr(i1, name))
-            assigns.append([name, r, got, list(LOG)])
+            assigns.append([name, r, got, log()])
         out["assign"] = assigns
         out["delattr"] = attempt(lambda: delattr(_blank(cls, RAW1), tup[0].name) if len(tup) else None)
     del LOG[:]
 
-    def make():
-        kw = {a.alias: RAW1 for a in tup if a.init}
+    def make(only_mandatory):
+        kw = {a.alias: RAW1 for a in tup if a.init and not (only_mandatory and a.default is not NOTHING)}
         inst = cls(**kw)
-        return [[a.name, canon(getattr(inst, a.name, "unset"))] for a in tup]
+        return [[a.name, canon(getattr(inst, a.name, "unset"))] for a in tup] + [_ADDR.sub(" at 0x?", repr(inst))]
 
-    out["construct"] = [attempt(make), list(LOG)]
-    del LOG[:]
+    out["construct"] = [attempt(lambda: make(False)), log()]
+    out["construct_defaults"] = [attempt(lambda: make(True)), log()]
+    out["foreign"] = foreign
     return out
 
 
@@ -430,14 +531,19 @@ def decode_cells(fn, args_init):
 
 # ------------------------------------------------------------------ the world
 class World:
-    def __init__(self, case, tag=""):
+    def __init__(self, case, tag="", fp_bases=True):
         self.case = case
+        self.fp_bases = fp_bases
         self.sfx = case_suffix(case) + tag
         self.bases = {}
         self.base_fp = {}
-        self.L = [val(f"L{i}") for i in range(case["valLen"])]
-        self.Cs = [conv(f"C{i}") for i in range(case["convLen"])]
-        self.H = [_LIST_HOOKS[i] for i in range(case["hookLen"])]
+        self.shared = "S" + self.sfx            # owner of everything passed in through shared arguments
+        self.allowed = {}                        # id(class) -> (class, {owner: label})
+        self.cur_owner = self.shared
+        self.cur_variant = 0
+        self.L = [mk_val(self.shared, f"L{i}") for i in range(case["valLen"])]
+        self.Cs = [mk_conv(self.shared, f"C{i}") for i in range(case["convLen"])]
+        self.H = [mk_list_hook(self.shared, i) for i in range(case["hookLen"])]
         self.M = {f"k{i}": i for i in range(case["metaSize"])}
         self.cas = [self._ca_from_state(s, f"ca{j}") for j, s in enumerate(case["cas"])]
         self.these = {f["name"]: self._inline(f, "t") for f in case["these"]}
@@ -461,17 +567,30 @@ class World:
                 self.base(st["defDeco"]["c"]["base"])
 
     # --- counting attrs
-    def _ib(self, default, nvalid, convf, hook, kw_only, meta_n, tok, api="ib"):
+    def _ib(self, default, nvalid, convf, hook, kw_only, meta_n, tok, api="ib", fx=None):
+        """a counting attr whose callables all belong to the current owner (a class body, or the shared arguments)"""
+        own, var = self.cur_owner, self.cur_variant
+        fx = fx or {}
         kw = {}
         if default:
-            kw["default"] = 7
+            if fx.get("factory"):
+                kw["factory" if fx["factory"] == "kw" else "default"] = (
+                    mk_factory(own, tok, var) if fx["factory"] == "kw" else attr.Factory(mk_factory(own, tok, var)))
+            else:
+                kw["default"] = 7 + var
         if nvalid == 1:
-            kw["validator"] = val(tok + ".0")
+            kw["validator"] = mk_val(own, tok + ".0")
         elif nvalid > 1:
-            kw["validator"] = [val(f"{tok}.{i}") for i in range(nvalid)]
+            kw["validator"] = [mk_val(own, f"{tok}.{i}") for i in range(nvalid)]
         if convf:
-            kw["converter"] = conv(tok)
-        h = hook_obj(hook)
+            kw["converter"] = mk_conv(own, tok, var)
+        if fx.get("eqKey"):
+            kw["eq"] = mk_key(own, tok + ".eq", var)
+        if fx.get("orderKey"):
+            kw["order"] = mk_key(own, tok + ".ord", var)
+        if fx.get("reprFn"):
+            kw["repr"] = mk_repr(own, tok, var)
+        h = hook_obj(hook, mk_hook(own, tok, var) if hook == "custom" else None)
         if h is not None:
             kw["on_setattr"] = h
         if kw_only:
@@ -484,7 +603,8 @@ class World:
         return self._ib(s["hasDefault"], s["nValid"], s["conv"], s["hook"], s["kwOnly"], s["metaN"], tok)
 
     def _inline(self, f, prefix, api="ib"):
-        return self._ib(f["hasDefault"], f["nValid"], f["conv"], f["hook"], f["kwOnly"], f["metaN"], prefix + f["name"], api)
+        return self._ib(f["hasDefault"], f["nValid"], f["conv"], f["hook"], f["kwOnly"], f["metaN"], prefix + f["name"], api,
+                        f.get("x"))
 
     def _lists_field(self, f, api="ib"):
         kw = {"validator": self.L, "converter": self.Cs, "metadata": self.M, "on_setattr": self.H}
@@ -508,7 +628,7 @@ class World:
             if a.get(k) is not None:
                 kw[py] = a[k]
         if a.get("onSetattr") is not None:
-            h = hook_obj(a["onSetattr"])
+            h = hook_obj(a["onSetattr"], mk_hook(self.shared, "deco"))
             if isinstance(h, list):
                 self.hook_lists.append(h)
             kw["on_setattr"] = h
@@ -544,7 +664,7 @@ class World:
             b = attrs.define(frozen=(kind == "frozenDefine"))(type("Base_" + kind + self.sfx, (), ns))
         elif kind == "hookedDefine":
             ns["__annotations__"] = {"b": int}
-            ns["b"] = attrs.field(converter=conv("base"), validator=val("base"))
+            ns["b"] = attrs.field(converter=mk_conv("B:" + kind + self.sfx, "base"), validator=mk_val("B:" + kind + self.sfx, "base"))
             b = attrs.define(type("Base_" + kind + self.sfx, (), ns))
         elif kind in ("frozenAttrS", "mutableAttrS"):
             ns["b"] = attr.ib()
@@ -553,8 +673,14 @@ class World:
             raise ValueError(kind)
         self.bases[kind] = b
         if kind not in ("object", "exc", "plain"):
-            self.base_fp[kind] = deep_of(b)
+            self.allowed[id(b)] = (b, {"B:" + kind + self.sfx: "own", self.shared: "shared"})
+            if self.fp_bases:
+                self.base_fp[kind] = deep_of(b, self.allowed_of(b))
         return b
+
+    def allowed_of(self, cls):
+        e = self.allowed.get(id(cls))
+        return e[1] if e is not None and e[0] is cls else {self.shared: "shared"}
 
     # --- class bodies
     def _own_ns(self, own):
@@ -574,7 +700,9 @@ class World:
         x = facts.get("x", {})
         name = x.get("name", "C") + self.sfx
         api = x.get("fieldApi", "ib")
-        env = {"__name__": MODNAME, "Base": self.base(facts["base"])}
+        self.cur_owner = f"K{self.n_classes}{self.sfx}"     # every callable created by this body belongs to this class
+        self.cur_variant = x.get("variant", 0)
+        env = {"__name__": x.get("module", MODNAME), "Base": self.base(facts["base"])}
         lines = [f"class {name}(Base):" if facts["base"] != "object" else f"class {name}:"]
         for i, f in enumerate(facts["fields"]):
             n = f["name"]
@@ -606,7 +734,11 @@ class World:
             if len(_CODE) > 5000:
                 _CODE.clear()
             code = _CODE[src] = compile(src, "<c16 body>", "exec")
-        exec(code, env)
+        try:
+            exec(code, env)
+        finally:
+            owner, self.cur_owner, self.cur_variant = self.cur_owner, self.shared, 0
+        self.last_owner = owner
         return env[name]
 
     # --- steps
@@ -615,8 +747,11 @@ class World:
         self.n_classes += 1
         try:
             if "defDeco" in step:
-                raw = self.raw_class(step["defDeco"]["c"])
+                facts = step["defDeco"]["c"]
+                raw = self.raw_class(facts)
                 cls = self.decos[step["defDeco"]["i"]](raw)
+                self.allowed[id(cls)] = (cls, {self.last_owner: "own", "B:" + facts["base"] + self.sfx: "base",
+                                               self.shared: "shared"})
             else:
                 m = step["defMk"]["m"]
                 a = m["args"]
@@ -632,12 +767,13 @@ class World:
                     if a.get(k) is not None:
                         kw[py] = a[k]
                 if a.get("onSetattr") is not None:
-                    kw["on_setattr"] = hook_obj(a["onSetattr"])
+                    kw["on_setattr"] = hook_obj(a["onSetattr"], mk_hook(self.shared, "mk"))
                 if m["withBody"]:
                     kw["class_body"] = self.mk_body
                 bases = self.mk_bases[m["base"]]
                 name = m.get("x", {}).get("name", "M") + self.sfx
                 cls = attr.make_class(name, self.mk_names if m["useList"] else self.mk_dict, bases, **kw)
+                self.allowed[id(cls)] = (cls, {"B:" + m["base"] + self.sfx: "base", self.shared: "shared"})
         except BaseException as e:  # noqa: BLE001
             return {"err": {"e": exc4(e)}}, None
         try:
@@ -649,15 +785,15 @@ class World:
         try:
             if isinstance(step, dict) and "caValidator" in step:
                 j = step["caValidator"]["j"]
-                self.cas[j].validator(val(f"ca{j}.op{n_valid(self.cas[j]._validator)}"))
+                self.cas[j].validator(mk_val(self.shared, f"ca{j}.op{n_valid(self.cas[j]._validator)}"))
             elif isinstance(step, dict) and "caDefault" in step:
                 self.cas[step["caDefault"]["j"]].default(_DEFAULT_METH)
             elif step == "valAppend":
-                self.L.append(val(f"L{len(self.L)}"))
+                self.L.append(mk_val(self.shared, f"L{len(self.L)}"))
             elif step == "convAppend":
-                self.Cs.append(conv(f"C{len(self.Cs)}"))
+                self.Cs.append(mk_conv(self.shared, f"C{len(self.Cs)}"))
             elif step == "hookAppend":
-                self.H.append(_LIST_HOOKS[len(self.H) % len(_LIST_HOOKS)])
+                self.H.append(mk_list_hook(self.shared, len(self.H)))
             elif step == "metaSet":
                 self.M[f"k{len(self.M)}"] = len(self.M)
             else:
